@@ -66,4 +66,4 @@ def run(ctx):
     ctx.evaluations = len(lines)
     ctx.distinct_nontrivial = len(set(lines))
     ctx.search_stats = {"hostile_lines": len(lines), "cases": len(cases), "salts": SALTS, "raised": sum(1 for o in i if o.startswith("RAISED"))}
-    ctx.samples = [{"line": lines[0], "impl": textgen.outlines(i[0])[0][:200]}, {"line": lines[1], "impl": textgen.outlines(i[0])[1][:200]}]
+    ctx.samples = [textgen.sample(cases[0], i[0], 0), textgen.sample(cases[0], i[0], 1)]
